@@ -664,6 +664,48 @@ fn nests_text(m: &crate::mapmodel::MapSet) -> String {
 	s
 }
 
+fn surrogate_names(c: &mut crate::classfile::model::CClass) {
+	use crate::classfile::model::{Attr, Const, Insn};
+	fn mark(n: &mut String) {
+		if !n.starts_with('<') {
+			n.push('\u{E000}');
+		}
+	}
+	fn in_const(k: &mut Const) {
+		if let Const::Dynamic { name, bsm, .. } = k {
+			mark(name);
+			for a in bsm.args.iter_mut() {
+				in_const(a);
+			}
+			mark(&mut bsm.handle.name);
+		}
+		if let Const::MethodHandle(h) = k {
+			mark(&mut h.name);
+		}
+	}
+	for m in c.fields.iter_mut().chain(c.methods.iter_mut()) {
+		mark(&mut m.name);
+		for a in m.attrs.iter_mut() {
+			if let Attr::Code(code) = a {
+				for i in code.insns.iter_mut() {
+					match i {
+						Insn::Field { name, .. } | Insn::Invoke { name, .. } => mark(name),
+						Insn::InvokeDynamic { name, bsm, .. } => {
+							mark(name);
+							mark(&mut bsm.handle.name);
+							for a in bsm.args.iter_mut() {
+								in_const(a);
+							}
+						}
+						Insn::Ldc(k) => in_const(k),
+						_ => {}
+					}
+				}
+			}
+		}
+	}
+}
+
 /// the whole deterministic case list
 pub fn enumerate(seed: u64, tier: Tier, visit: &mut Visit) {
 	let thorough = tier == Tier::Thorough;
@@ -673,7 +715,12 @@ pub fn enumerate(seed: u64, tier: Tier, visit: &mut Visit) {
 	for k in 0..n_class_seeds {
 		let stream = sm.draw(&class_stream());
 		let ch: Choices = if k % 2 == 0 { Choices::default() } else { sm.draw(&choices()) };
-		let model = class_from_stream(&stream, 3, 14);
+		let mut model = class_from_stream(&stream, 3, 14);
+		// every fourth seed spells its member names (declared, referenced, dynamic) with an unpaired surrogate: still a valid
+		// file, but a name that cannot be printed lies on every error path the faults below reach
+		if k % 4 == 3 {
+			surrogate_names(&mut model);
+		}
 		let Ok(enc) = encode(&model, &ch) else { continue };
 		if enc.bytes.len() > 6000 {
 			continue;
